@@ -195,6 +195,19 @@ func init() {
 		p := it.newStructPtr(t, map[string]Value{"parent": err, "msg": OpaqueV{Why: "Wrapf message"}})
 		return IfaceV{T: types.NewPointer(t), V: p}
 	})
+	Register("cosmossdk.io/errors.errIsNil", func(it *Interp, fn *ssa.Function, a []Value) Value {
+		iv := a[0].(IfaceV)
+		if iv.T == nil {
+			return it.C.True
+		}
+		if p, ok := iv.V.(PtrV); ok && p.O == nil {
+			return it.C.True
+		}
+		return it.C.False
+	})
+	Register("("+sdkTypes+".Event).AppendAttributes", func(it *Interp, fn *ssa.Function, a []Value) Value {
+		return OpaqueV{Why: "event"}
+	})
 	Register("(*cosmossdk.io/errors.wrappedError).Error", func(it *Interp, fn *ssa.Function, a []Value) Value {
 		return OpaqueV{Why: "wrapped error text"}
 	})
